@@ -13,7 +13,7 @@ from ..engine import pmap
 from ..ref import dhcp as D
 from ..ref import netwire as NW
 from ..ref import route as R
-from ..sim import World, MS, HarnessError, Abort
+from ..sim import World, MS, HarnessError, Abort, GhostShot
 
 PID = "C16"
 DIRECT = D.DEFAULT_ADDR
@@ -21,6 +21,8 @@ VIAS = (DIRECT, 0o1, 0o5, 0o15, 0o123)
 CORNER_VIAS = (0o444, 0o1)  # 0o444: the only parent whose child slot 4 is the unassigned address 0o4444
 IDS5 = (1, 2, 3, 4, 255)
 UNLEASED = 0o33  # never handed out by any request of the alphabet
+INTERLEAVED_RESERVED = 77  # `reserved` byte of the unrelated frame of a "reqx" event (never a requester id)
+UNKNOWN_LOOKUP_ID = 199
 # The master waits route_timeout (default 75 ms) for a NETWORK_ACK after every reply routed over more
 # than one hop and repeats the reply when none arrives; no modelled node sends one, so the documented
 # attribute is lowered to keep an execution short.  Both copies of the reply are judged.
@@ -63,6 +65,9 @@ def via_name(via):
 
 def alphabet(table, ids, vias=VIAS):
     ev = [("req", i, v) for i in ids for v in vias]
+    # the same request with an unrelated frame arriving during the master's NETWORK_ACK wait
+    # (only replies routed over more than one hop are waited for: relays of level >= 2)
+    ev += [("reqx", i, v) for i in ids[:2] for v in vias if v != DIRECT and R.level(v) >= 2]
     leased = sorted({a for _, a in table})
     for a in leased + [UNLEASED]:
         ev.append(("rel", a))
@@ -100,14 +105,22 @@ def apply_event(st, ev, tmpdir, judge=True, history=None):
     def v(clause, what):
         viol.append(("%s/%s" % (PID, clause), what))
 
-    if kind == "req":
+    if kind in ("req", "reqx"):
         _, nid, via = ev
         addr, noack = D.request_phys(via)
         frame = NW.pack_frame(via, 0, step & 0xFFFF, D.ADDR_REQUEST, nid, b"")
         if not H.inject(w, g, addr, frame, noack=noack):
             raise HarnessError("request frame did not reach the master's radio")
+        if kind == "reqx":
+            # another, unrelated frame (a lookup carrying a different `reserved` byte) reaches the master
+            # while it waits for the NETWORK_ACK of its routed reply
+            other = NW.pack_frame(0o2, 0, (step + 1) & 0xFFFF, 196, INTERLEAVED_RESERVED, bytes([UNKNOWN_LOOKUP_ID]))
+            w.at(w.now + 1300 * 1000, GhostShot(g, R.pipe_address(0, 2), other), "fire")
         try:
             ret = m.update()
+            if kind == "reqx":
+                w.advance(2 * MS)
+                m.update()
         except (HarnessError, Abort):
             raise
         except Exception as e:  # noqa
@@ -373,7 +386,55 @@ def w_persist(item, rep):
         shutil.rmtree(tmpdir, ignore_errors=True)
 
 
+def w_resave(item, rep):
+    """the same master saves to the same file again after its table changed (and a third time
+    after it shrank): the file must always hold the table as it is at the LAST save"""
+    seed, = item
+    tmpdir = tempfile.mkdtemp(prefix="vf_c16_", dir="/tmp")
+    try:
+        for fmt in ("json", "bin"):
+            for k0 in (0, 1, 4):
+                st = mk_master(D.structured_table(k0, 0, seed))
+                w, m, r, g = st[0], st[1], st[2], st[3]
+                w.activate()
+                path = os.path.join(tmpdir, "resave-%s-%d.%s" % (fmt, k0, fmt))
+                steps = [("nothing", None), ("grow", (200, 0o2345)), ("grow", (201, 0o345)), ("change", (200, 0o1345)), ("shrink", 0o345), ("shrink", 0o1345),
+                         ("nothing", None)]
+                for i, (what, arg) in enumerate(steps):
+                    if what == "grow" or what == "change":
+                        m.set_address(arg[0], arg[1])
+                    elif what == "shrink":
+                        m.release_address(arg)
+                    want = sorted(table_of(m))
+                    try:
+                        m.save_dhcp(path, as_bin=(fmt == "bin"))
+                        fr = fresh_master()
+                        fr[0].activate()
+                        fr[1].load_dhcp(path, as_bin=(fmt == "bin"))
+                        got = sorted(table_of(fr[1]))
+                        w.activate()
+                    except (HarnessError, Abort):
+                        raise
+                    except Exception as e:  # noqa
+                        rep.violation("%s/raises-%s:persistence:%s" % (PID, type(e).__name__, fmt), "save #%d / load raised %r" % (i + 1, e),
+                                      {"part": "resave", "seed": seed})
+                        break
+                    rep.case()
+                    rep.transitions += 1
+                    rep.traces += 1
+                    rep.outcome("resave:%s:%s" % (fmt, what))
+                    rep.nt("resave:%s:%d:%d" % (fmt, k0, i))
+                    if got != want:
+                        rep.violation("%s/persistence:%s:resave-after-%s" % (PID, fmt, what),
+                                      "save #%d to the same file after '%s': a fresh master loads %s, the table was %s" % (i + 1, what, fmt_table(got), fmt_table(want)),
+                                      {"part": "resave", "seed": seed})
+                        break
+    finally:
+        shutil.rmtree(tmpdir, ignore_errors=True)
+
+
 def run(tier, seed, rep, only=None):
+    pmap(w_resave, [(seed,)], rep)
     depth = 5 if tier == "quick" else 7
     ids = (1, 2, 3)
     cap = None if tier == "quick" else 400000
@@ -424,7 +485,12 @@ def replay(data):
     r = data["replay"]
     tmpdir = tempfile.mkdtemp(prefix="vf_c16_", dir="/tmp")
     try:
-        if r["part"] == "bfs":
+        if r["part"] == "resave":
+            from ..engine import Report
+            rp = Report()
+            w_resave((r["seed"],), rp)
+            viol = [(s_, v_["what"]) for s_, v_ in rp.violations.items()]
+        elif r["part"] == "bfs":
             st, viol, out = run_history(r["start"], r["history"], tmpdir)
             print("history:", r["history"], "outcome:", out, "table:", fmt_table(table_of(st[1])))
         else:
